@@ -106,10 +106,13 @@ func (s *sim) close() {
 		_ = os.RemoveAll(s.dir)
 		return
 	}
+	defer func() {
+		_ = recover() // a WAL left half-broken by a failed call may not survive Close; not our concern here
+		_ = os.RemoveAll(s.dir)
+	}()
 	if s.w != nil {
 		_ = s.w.Close()
 	}
-	_ = os.RemoveAll(s.dir)
 }
 
 func value(id int64, l int) []byte {
@@ -293,8 +296,10 @@ func (s *sim) apply0(st *step) (problem string) {
 	case "Reopen":
 		if err := s.w.Close(); err != nil {
 			st.Res = errClass(err)
-		} else {
-			st.Res = errClass(s.open())
+		} else if err := s.open(); err != nil {
+			st.Res = errClass(err)
+			s.w = nil
+			return "the WAL cannot be reopened after a clean close: " + err.Error()
 		}
 	case "Tick":
 		s.now += st.N
@@ -419,12 +424,14 @@ func cmdReplay(args []string) int {
 				fmt.Fprintln(os.Stderr, "mismatch did not reproduce:", mm.What)
 				return 2
 			}
+			if mm.Step < 0 {
+				res.Mismatches = append(res.Mismatches, *mm)
+				continue
+			}
 			key := fmt.Sprintf("%s|%s", beh[mm.Step].A, tmpName.ReplaceAllString(mm.What, ""))
 			if mm.Step >= 0 && !seen[key] && len(res.Mismatches) < 50 {
 				seen[key] = true
 				mm.Behaviour = beh[:mm.Step+1]
-				res.Mismatches = append(res.Mismatches, *mm)
-			} else if mm.Step < 0 {
 				res.Mismatches = append(res.Mismatches, *mm)
 			}
 		}
